@@ -185,6 +185,7 @@ class Recorder:
     def __init__(self, snapshots=True, monitors=()):
         self.events = []
         self.calls = []  # plugin-method calls: (seq_of_enclosing_event, method, side)
+        self.call_cfgs = []  # (seq_of_enclosing_event, method, copy of the called object's cfg)
         self.violations = []
         self.snapshots = snapshots
         self.monitors = list(monitors)
@@ -355,6 +356,9 @@ def install_plugin_recorders():
                         obj = args[argidx] if argidx < len(args) else None
                         side = _side_of(machine, obj)
                         rec.calls.append((rec.current["seq"] if rec.current else 0, method, side))
+                        ocfg = getattr(self, "cfg", None)
+                        if isinstance(ocfg, dict) and hasattr(rec, "call_cfgs"):
+                            rec.call_cfgs.append((rec.current["seq"] if rec.current else 0, method, dict(ocfg)))
                     return real(self, *args, **kwargs)
 
                 recorder.__wrapped__ = real
